@@ -41,6 +41,28 @@ class FreeParameterAnalysis(IndexCollectionAnalysis):
             for prior in parameter.priors
         ]
 
+    def _with_analyses(self, *analyses: Analysis):
+        """
+        A free parameter analysis for some analyses with the free parameters of this one
+        """
+        return FreeParameterAnalysis(
+            *analyses, free_parameters=tuple(self.free_parameters)
+        )
+
+    def __add__(self, other: Analysis):
+        """
+        Adding to an analysis with free parameters gives an analysis with (at least)
+        the same free parameters, each independent for every underlying analysis.
+        """
+        if isinstance(other, FreeParameterAnalysis):
+            return FreeParameterAnalysis(
+                *self.analyses,
+                *other.analyses,
+                free_parameters=tuple(self.free_parameters)
+                + tuple(other.free_parameters),
+            )
+        return super().__add__(other)
+
     def modify_model(self, model: AbstractPriorModel) -> AbstractPriorModel:
         """
         Create prior models where free parameters are replaced with new
